@@ -54,6 +54,8 @@ pub fn ctx_vs_crash(c: &Ctx, cs: &CrashSpec) -> Vec<String> {
         ("fp.error_offset", u32at(8) as u64, fp.rip & 0xffff_ffff),
         ("fp.data_offset", u32at(16) as u64, fp.rdp & 0xffff_ffff),
         ("fp.mx_csr", u32at(24) as u64, fp.mxcsr as u64),
+        // the context keeps MXCSR a second time, as a member of its own (the one readers print)
+        ("mx_csr", c.mx_csr as u64, fp.mxcsr as u64),
         ("fp.mx_csr_mask", u32at(28) as u64, fp.mxcr_mask as u64),
     ];
     for (n, got, w) in fchecks {
